@@ -10,13 +10,16 @@ from hypothesis import strategies as st
 from vlib.runner import good, bad, HarnessError
 from vlib.det import DET
 from vlib import scenario as sc
+from vlib.driver import drive
 from vlib import iana
 from vlib.tap import RefView
 
 ID = "C01"
 LEVEL = "exploration"
 RULE = ("case = (suite, version, EtM, both record_size_limit settings, "
-        "TLS 1.3 padding callback, history of write/read/set-recordSize "
+        "TLS 1.3 padding callback, payload fill (pseudo-random, all-zero, "
+        "leading / trailing zeros, 0xff), full or resumed handshake, "
+        "history of write/read/set-recordSize/KeyUpdate "
         "operations on either side with boundary-biased lengths, optionally "
         "ended by the writer closing while data is undelivered and the "
         "reader asking for more than is left); every "
@@ -115,9 +118,28 @@ def check(case):
         s_extra["padding_cb"] = pad_cb_for(pad)
     copts, sopts = sc.pin(suite, v, etm=etm, c_extra=c_extra,
                           s_extra=s_extra)
-    p = sc.connect(copts, sopts)
     labels = ["ver=%d.%d" % v, "kind=" + suite.kind +
               ("+etm" if etm and suite.kind == "cbc" else "")]
+    if case.get("resume"):
+        # the data phase runs on a *resumed* connection (abbreviated
+        # handshake: extensions are negotiated on another code path)
+        from tlslite.api import SessionCache
+        sopts["sessionCache"] = SessionCache()
+        sopts["settings"].ticketKeys = [bytearray(b"c01" * 11)[:32]]
+        p0 = sc.connect(dict(copts), dict(sopts))
+        if not p0.both_ok:
+            return bad("handshake-fails:%04x:%s" % (sid, sc.VERNAME[v]),
+                       "client %r server %r" % (p0.co, p0.so), labels=labels)
+        sc.do_write(p0, "s", b"t")
+        sc.read_all(p0, "c")
+        sc.do_close(p0, "c")
+        sc.read_all(p0, "s")
+        copts["session"] = p0.c.session
+        DET.reseed("C01r", sid, v, etm, case.get("salt", 0))
+    p = sc.connect(copts, sopts)
+    if case.get("resume"):
+        labels.append("resumed" if p.both_ok and p.c.resumed
+                      else "not-resumed")
     if not p.both_ok:
         return bad("handshake-fails:%04x:%s" % (sid, sc.VERNAME[v]),
                    "client %r server %r" % (p.co, p.so), labels=labels)
@@ -167,9 +189,32 @@ def check(case):
             p.conn(side).recordSize = size
             user[side] = size
             continue
+        if kind == "ku":
+            if v != (3, 4):
+                continue
+            _, side, req = op
+            outs, _ = drive({side: p.conn(side).send_keyupdate_request(
+                1 if req else 0)}, p.link, on_stall="leave")
+            if not outs[side].ok:
+                return bad("keyupdate-fails", repr(outs[side]),
+                           labels=labels)
+            labels.append("keyupdate")
+            if rv is not None:
+                rv.follow(side)
+                seen_recs[side] = len(rv.plain[side])
+            continue
         if kind == "w":
             _, side, n = op
             data = prg(b"C01/%d/%d" % (case.get("salt", 0), i), n)
+            fill = case.get("fill")
+            if fill == "zeros":
+                data = bytes(n)
+            elif fill == "lead0":
+                data = bytes(min(n, 40)) + data[min(n, 40):]
+            elif fill == "trail0":
+                data = data[:max(0, n - 40)] + bytes(min(n, 40))
+            elif fill == "ff":
+                data = b"\xff" * n
             o = sc.do_write(p, side, data)
             if not o.ok:
                 return bad("write-fails:%s" % suite.kind,
@@ -192,7 +237,12 @@ def check(case):
                 new = rv.plain[side][seen_recs[side]:]
                 seen_recs[side] = len(rv.plain[side])
                 got = b"".join(pt for ct, pt, r in new if ct == 23)
-                if got != data or any(ct != 23 for ct, pt, r in new):
+                # (TLS 1.3: the answer to the peer's KeyUpdate request may
+                # travel between the data records)
+                if got != data or any(
+                        ct != 23 and not (v == (3, 4) and ct == 22 and
+                                          pt[:1] == b"\x18")
+                        for ct, pt, r in new):
                     return bad("wire-plaintext-differs:%s:%s" % (
                         suite.kind, sc.VERNAME[v]),
                         "op %d: reference recovered %d bytes / types %r, "
@@ -324,13 +374,15 @@ def history(draw, max_ops, big):
     n = draw(st.integers(2, max_ops))
     sizes = [1, 15, 16, 17, 63, 64, 65, 255, 256, 2 ** 14 - 1, 2 ** 14]
     for _ in range(n):
-        k = draw(st.sampled_from(["w", "w", "w", "r", "r", "rs"]))
+        k = draw(st.sampled_from(["w", "w", "w", "r", "r", "rs", "ku"]))
         side = draw(st.sampled_from(["c", "s"]))
         if k == "w":
             ln = draw(len_strategy() if big else st.one_of(
                 st.integers(0, 700), st.sampled_from([0, 1, 63, 64, 65, 66,
                                                       127, 128, 129, 256])))
             ops.append(["w", side, ln])
+        elif k == "ku":
+            ops.append(["ku", side, draw(st.booleans())])
         elif k == "r":
             mx = draw(st.sampled_from([1, 2, 16, 100, 5000, 70000]))
             mn = draw(st.sampled_from([0, 1, 1, 2, 50, 3000]))
@@ -362,6 +414,9 @@ def case_strategy(draw, big):
         d["pad13"] = draw(st.sampled_from(
             [None, None, ["const", 1], ["const", 100], ["fill"],
              ["mod", 64], ["mod", 512]]))
+    d["fill"] = draw(st.sampled_from(["prg", "prg", "zeros", "lead0",
+                                      "trail0", "ff"]))
+    d["resume"] = draw(st.integers(0, 3)) == 0
     if draw(st.integers(0, 3)) == 0:
         d["fin"] = [draw(st.sampled_from(["c", "s"])),
                     draw(st.sampled_from([1, 16, 100, 70000])),
@@ -394,6 +449,26 @@ def explicit(tier, seed):
         if v == (3, 4):
             d["pad13"] = [None, ["const", 7], ["fill"], ["mod", 64]][k % 4]
         yield d
+        if k % 2 == 0:
+            # same history on a resumed connection, zero-heavy payloads,
+            # asymmetric limits, repeated KeyUpdates
+            d3 = dict(d)
+            d3["resume"] = True
+            d3["fill"] = ["zeros", "lead0", "trail0", "ff"][(k // 2) % 4]
+            d3["c_rsl"], d3["s_rsl"] = [(2 ** 14, 1024), (512, 2 ** 14),
+                                        (2 ** 14 + 1, 64)][(k // 2) % 3]
+            # (each side answers a KeyUpdate request when it reads, and
+            # re-keys its own direction again afterwards)
+            d3["ops"] = [["w", "c", 3000], ["w", "s", 3000],
+                         ["ku", "s", True], ["r", "c", 3000, 3000],
+                         ["ku", "c", False], ["w", "c", 700],
+                         ["r", "s", 3700, 3700], ["ku", "c", True],
+                         ["w", "s", 40000], ["r", "s", 10, 0],
+                         ["r", "c", 70000, 40000], ["ku", "s", False],
+                         ["w", "c", 17000], ["w", "s", 5],
+                         ["r", "s", 70000, 17000], ["ku", "s", True],
+                         ["ku", "c", True], ["w", "c", 9], ["w", "s", 9]]
+            yield d3
         if k % 3 == 0:
             d2 = dict(d)
             d2["ops"] = [["w", "c", 30], ["w", "s", 30], ["w", "c", 20],
